@@ -5,7 +5,7 @@ writes evidence.  See DESIGN.md section 2 and 6.
 Exit codes of a check: 0 = all obligations discharged (known findings excepted),
 1 = violation (VIOLATION line printed), 2 = undecided (tool failure, timeout, vacuity guard).
 """
-import json, os, re, shutil, subprocess, sys, tempfile, time, hashlib
+import threading, json, os, re, shutil, subprocess, sys, tempfile, time, hashlib
 from concurrent.futures import ThreadPoolExecutor
 
 VERIF = os.path.dirname(os.path.dirname(os.path.abspath(__file__)))
@@ -42,12 +42,29 @@ def sh(cmd, cwd=None, timeout=None, mem_gb=None, stdout=None):
         def pre():
             resource.setrlimit(resource.RLIMIT_AS, (lim, lim))
     t0 = time.time()
+    timed = mem_gb and os.path.exists("/usr/bin/time")
+    full = (["/usr/bin/time", "-f", "VERIF_MAXRSS_KB=%M"] + list(cmd)) if timed else cmd
+    p = subprocess.Popen(full, cwd=cwd, preexec_fn=pre, stdout=subprocess.PIPE, stderr=subprocess.PIPE, start_new_session=True)
     try:
-        p = subprocess.run(cmd, cwd=cwd, timeout=timeout, preexec_fn=pre,
-                           stdout=subprocess.PIPE, stderr=subprocess.PIPE)
-        return p.returncode, p.stdout.decode("utf-8", "replace"), p.stderr.decode("utf-8", "replace"), time.time() - t0
-    except subprocess.TimeoutExpired as e:
-        return -9, (e.stdout or b"").decode("utf-8", "replace"), "TIMEOUT after %ss" % timeout, time.time() - t0
+        out, err = p.communicate(timeout=timeout)
+        rc = p.returncode
+    except subprocess.TimeoutExpired:
+        try:
+            os.killpg(p.pid, 9)
+        except OSError:
+            pass
+        out, err = p.communicate()
+        return -9, out.decode("utf-8", "replace"), "TIMEOUT after %ss" % timeout, time.time() - t0
+    err = err.decode("utf-8", "replace")
+    m = re.search(r"VERIF_MAXRSS_KB=(\d+)", err)
+    if m:
+        LAST_RSS[threading.get_ident()] = int(m.group(1)) / 1048576.0
+        if "Command terminated by signal" in err and rc >= 0:
+            rc = -9
+    return rc, out.decode("utf-8", "replace"), err, time.time() - t0
+
+
+LAST_RSS = {}
 
 
 # ------------------------------------------------------------------------------------------
@@ -195,6 +212,13 @@ def build_proof(proof, tmp, log):
     for f in libs:
         if not os.path.exists(f):
             raise Undecided("source file missing: " + f)
+    if proof.get("extract"):
+        # verbatim regions of /repo code wrapped mechanically into functions (vlib/extract.py), regenerated on every run
+        from . import extract
+        try:
+            libs.append(extract.EXTRACTORS[proof["extract"]](SRC, tmp))
+        except extract.ExtractionFailed as e:
+            raise Undecided("mechanical extraction '%s' failed (rules did not fire; re-derive them): %s" % (proof["extract"], e))
     extra = [os.path.join(VERIF, f) for f in proof.get("stubs", [])]
     harness = os.path.join(VERIF, proof["harness"])
     entry = proof.get("entry", "harness")
@@ -318,6 +342,7 @@ def run_cbmc(proof, gb, tmp, log, backend=None, extra=None, timeout=None):
                             mem_gb=proof.get("mem_gb", 10))
     results, status, msgs = parse_cbmc_json(out)
     return dict(rc=rc, results=results, status=status, msgs=msgs, secs=secs, cmd=" ".join(cmd),
+                rss_gb=LAST_RSS.get(threading.get_ident()),
                 err=err[-2000:], raw_tail=out[-2000:])
 
 
@@ -373,6 +398,7 @@ def run_proof(proof, tier, keep=False, backend=None):
             gb = build_proof(proof, tmp, log)
         r = run_cbmc(proof, gb, tmp, log, backend=backend)
         res["solver_s"] = r["secs"]
+        res["rss_gb"] = r.get("rss_gb")
         res["cmd"] = r["cmd"]
         if r["results"] is None:
             raise Undecided("cbmc gave no result list (rc=%s): %s %s" % (r["rc"], r["err"], r["raw_tail"][-600:]))
